@@ -83,6 +83,8 @@ package py
 // ---- exceptions and line table (C02, C05) ----
 
 //@ ghost lasterr object local
+//@ ghost opid int local
+//@ ghost opcall object local
 
 //@ func (*Code).Addr2Line(co, addrq) (line)
 //@   trusted
